@@ -1,7 +1,8 @@
 #!/bin/bash
-# usage: rules_on_many.sh "RULE RULE..." dir1 dir2 ... : run rules on each patch dir (6 in parallel), print non-discharged obligations
+# usage: rules_on_many.sh "RULE RULE..." dir1 dir2 ... : run rules on each patch dir (WORKERS in parallel, default 6), print non-discharged obligations
 rules="$1"; shift
-mkdir -p /tmp/rom
-printf '%s\n' "$@" | xargs -P 6 -I{} sh -c 'n=$(basename {}); /verif/scripts/rule_on_patch.sh {} '"$rules"' > /tmp/rom/$n.txt 2>&1'
-for d in "$@"; do n=$(basename $d); echo "== $n"; grep -v "obligations$" /tmp/rom/$n.txt | cut -c1-420; done
-rm -rf /tmp/rom
+T=$(mktemp -d /tmp/rom.XXXXXX)
+export T
+printf '%s\n' "$@" | xargs -P ${WORKERS:-6} -I{} sh -c 'n=$(basename {}); /verif/scripts/rule_on_patch.sh {} '"$rules"' > $T/$n.txt 2>&1'
+for d in "$@"; do n=$(basename $d); echo "== $n"; grep -v "obligations$" $T/$n.txt | cut -c1-420; done
+rm -rf "$T"
